@@ -81,9 +81,10 @@ def main():
 
             obs = INSObserver(em, model, kill_at_eval=cfg.get("kill_at_eval"))
             obs.install()
-            if cfg.get("ins_signal") is not None:
-                obs.arm_signal(cfg["ins_signal"])
             kwargs = dict(cfg.get("kwargs", {}))
+            obs.user_stop = {"criteria": kwargs.get("stopping_criterion", "ratio"),
+                             "tolerance": kwargs.get("tolerance", 0.0),
+                             "check": kwargs.get("check_criteria", "any")}
             kwargs.setdefault("plot", False)
             kwargs.setdefault("log_on_iteration", False)
             kwargs.setdefault("logging_interval", 100000)
